@@ -23,6 +23,7 @@ type rnnCase struct {
 	acts        []string // nil = attribute absent
 	dt          tensor.Dtype
 	explicitNil bool // absent optional inputs passed as explicit nil instead of being left out
+	outNames    int  // 0: Y, Y_h, Y_c; 1: last left unnamed; 2: only Y named; 3: Y unnamed; 4: arbitrary names
 }
 
 func (c rnnCase) gates() int { return map[string]int{"RNN": 1, "GRU": 3, "LSTM": 4}[c.kind] }
@@ -218,6 +219,7 @@ func genRnnCase(rt *rapid.T) rnnCase {
 	}
 	c.dt = rapid.SampledFrom([]tensor.Dtype{tensor.Float32, tensor.Float32, tensor.Float32, tensor.Float32, tensor.Float64}).Draw(rt, "dtype")
 	c.explicitNil = rapid.Bool().Draw(rt, "explicitNil")
+	c.outNames = rapid.SampledFrom([]int{0, 0, 0, 1, 2, 3, 4}).Draw(rt, "outNames")
 	return c
 }
 
@@ -235,6 +237,22 @@ func (c rnnCase) node() *onnx.NodeProto {
 	outs := []string{"Y", "Y_h"}
 	if c.kind == "LSTM" {
 		outs = append(outs, "Y_c")
+	}
+	// output names a graph may carry: the operator returns all of its results whatever the node
+	// calls them, including results the graph leaves unnamed
+	switch c.outNames {
+	case 1:
+		outs[len(outs)-1] = ""
+	case 2:
+		for i := 1; i < len(outs); i++ {
+			outs[i] = ""
+		}
+	case 3:
+		outs[0] = ""
+	case 4:
+		for i := range outs {
+			outs[i] = fmt.Sprintf("result_%d", len(outs)-i)
+		}
 	}
 	return mkNode(c.kind, nil, outs, attrs...)
 }
